@@ -51,9 +51,34 @@ CHECKS = {
   "TLC explores every history (up to 4 steps over the full palette, 5 over a reduced one) of declare / redeclare / construct / decode / field write (direct, non-symbol key, through a struct or pointer field) / element assignment / whole-instance assignment of the typed-record machine and checks WellTyped, RejectedUnchanged, KeepsDefinition; every step of exhaustive route x field-type x value-kind matrices, redeclaration histories, all short operation histories and seeded random histories executed on the real interpreter is validated by TLC against the same transition relation (result and the keys / value types of every live instance).",
   "2-4 struct names, 8 field types, 21 value kinds, 35 routes; struct/pointer values across redeclared versions and cross-version derefSet are unconstrained; value types are read off Go values; one open known finding (slice-element-unchecked) is a named deviation",
   "TLA+ spec (Records); TLC bounded exhaustive exploration + TLC trace validation of recorded executions; named deviations"),
+ "C01": ("CrashTrace", "exploration",
+  "In worker subprocesses with the verif step budget armed: every special form x arity 0..3 x 15 argument shapes, every callable name of a live sandboxed+StandardSetup interpreter x arity 0..3 x a 15-value palette, all strings over a 40-token alphabet up to length 3, sequences of calls on one interpreter and byte/token mutants of the script corpus, through EvalString, LoadString+Run, ParseTokens+EvalExpressions and macexpand; TLC validates every recorded outcome sequence against the one-state machine whose only outcomes are value / error / more-input / budget (escaped panic, nil result, process death are rejected).",
+  "names whose purpose is to leave the process or to block (exit, sys, sleep, stdin readers, file writers) are outside the universe; a single huge allocation request is not in the palette; cmd/zygo and the interactive reader are exercised under C08",
+  "TLA+ spec (CrashTrace); exhaustive input enumeration in isolated workers + TLC trace validation"),
+ "C11": ("Codec", "exploration",
+  "Every generated data value (scalar classes x 18 contexts to depth 3, all trees to depth 2 over a palette, strings of <= 3 character classes over the full Unicode range, int/float boundary grid, seeded random trees) is encoded by the real library; TLC decides for each recorded case that the JSON token tree (parsed by encoding/json) denotes the value (Codec!JDen) and that unjson/unmsgpack results equal it (Eq11), and audits the character-class escape table against the JSON grammar.",
+  "well-formedness delegated to encoding/json; NaN/Inf and invalid UTF-8 excluded; MCCodec is a design audit of the spec, verdicts only from recorded executions; one open known finding (uint64 >= 2^63 does not decode)",
+  "TLA+ spec (Codec/Decimal); TLC audit of the spec + TLC trace validation of recorded executions; named deviations"),
+ "C12": ("Codec+NumLit", "exploration",
+  "Every generated data value is printed by the real library and read back as data, evaluated, and saved/sourced (hashes); every numeric literal spelling of <= 3 (thorough 4) symbols over an 18-symbol alphabet plus directed and grammar-drawn spellings is read; TLC decides identity (Codec!Same) and, with NumLit!Classify, the exact integer value or the correct rounding of the exact decimal value of each spelling.",
+  "float rounding intervals from math/big (trusted); texts padded with white space (C13's statement covers unpadded texts); records and non-lexable symbols not generated",
+  "TLA+ spec (Codec/NumLit/Decimal); TLC audit of the spec + TLC trace validation of recorded executions"),
+ "C18": ("Packages", "exploration",
+  "TLC evaluates the visibility function of Packages.tla on every (tree, path, route, alias kind, alias prefix) up to the bounds, auditing it against the declarative reading of the statement and against implementation-shaped walkers; it validates every value / error, and the tree after every step, of ~106 k (quick) / ~1.07 M (thorough) recorded accesses on real package trees against Packages!Apply (9 read routes, 5 write routes, 8 alias kinds, inside accessor calls, every write read back from inside).",
+  "package depth 3; name classes upper / lower / non-letter; hashes 3 deep; non-capitalised keys of a visible hash member, non-letter names and final-hop access to a lower-named nested package are not judged",
+  "TLA+ spec (Packages: Visible + code-shaped walkers); TLC consistency check + TLC trace validation of recorded executions"),
+ "C20": ("Process+DetermTrace", "model_checking",
+  "Process.tla explores every iteration order of the registry scans over the LIVE registry content (dumped from the interpreter) and checks confluence; DetermTrace validates that 4 runs in fresh interpreters of one process (other interpreters declaring structs/records/packages in between) and 3-6 fresh processes of each program (fixed probes incl. a Go type registered under two names, the surface-language catalogue, the deterministic script corpus, generated programs) are one behaviour (printed value, error text, captured stdout).",
+  "addresses/goroutine ids/stack traces masked; random, time, pointer, file, channel, gensym-name programs excluded; runs sample map seeds, the model enumerates the orders",
+  "TLA+ spec (Process, DetermTrace); TLC exploration of map-walk orders over live constants + TLC trace validation of repeated runs"),
 }
 
 ENGINES = [
+ {"name": "CrashTrace", "path": "spec/CrashTrace.tla", "serves_properties": ["C01"], "kind_free_text": "TLA+ trace specification of the entry-point outcome machine, TLC"},
+ {"name": "Codec", "path": "spec/Decimal.tla spec/Codec.tla spec/CodecTrace.tla spec/MCCodec.tla", "serves_properties": ["C11"], "kind_free_text": "TLA+ functional spec + audit + trace specification, TLC"},
+ {"name": "Codec+NumLit", "path": "spec/Codec.tla spec/NumLit.tla spec/PrintReadTrace.tla spec/MCNumLit.tla", "serves_properties": ["C12"], "kind_free_text": "TLA+ functional spec + audit + trace specification, TLC"},
+ {"name": "Packages", "path": "spec/Packages.tla spec/PackagesTrace.tla spec/MCPackages.tla", "serves_properties": ["C18"], "kind_free_text": "TLA+ functional spec + code-shaped walkers + trace specification, TLC"},
+ {"name": "Process+DetermTrace", "path": "spec/Process.tla spec/DetermTrace.tla", "serves_properties": ["C20"], "kind_free_text": "TLA+ confluence model over live constants + trace specification, TLC"},
  {"name": "Quasi", "path": "spec/Quasi.tla spec/MCQuasi.tla spec/QuasiTrace.tla", "serves_properties": ["C15"], "kind_free_text": "TLA+ functional spec + law audit + trace specification, TLC"},
  {"name": "Records", "path": "spec/Records.tla spec/RecordsTrace.tla spec/MCRecords.tla", "serves_properties": ["C17"], "kind_free_text": "TLA+ state machine + trace specification, TLC"},
  {"name": "ZSem+FaultTrace", "path": "spec/ZSem.tla spec/FaultTrace.tla", "serves_properties": ["C05"], "kind_free_text": "TLA+ reference semantics with failure injection + trace specification, TLC"},
